@@ -257,7 +257,19 @@ func xzWriteCase(r *core.Run, prop string, p XZWCase) {
 		if s := liblzmaAgrees('x', 0, sink, want); s != "" {
 			r.Violate(cs, "xzW stream-rejected-by-liblzma "+site, desc, s, "liblzma decodes it to the input")
 		}
-		streamClass = fmt.Sprintf("ok blocks=%d", minInt(len(blocks), 5))
+		ks := ""
+		for _, b := range blocks {
+			for _, ch := range b.Chunks {
+				if len(ks) < 24 {
+					ks += fmt.Sprint(int(ch.Kind))
+				}
+			}
+			ks += "|"
+			if len(ks) > 24 {
+				break
+			}
+		}
+		streamClass = fmt.Sprintf("ok blocks=%d chunks=%s check=%d", minInt(len(blocks), 6), ks, x.Streams[0].Check)
 	}
 	if prop == "C01" {
 		// abstract writer state reached: history class x block/chunk boundary class
